@@ -12,8 +12,8 @@ Open Scope string_scope.
 Open Scope list_scope.
 
 (* (1) _find_time_like is total and sound, for all coordinate names, all affines and all oracle
-   answers, over the TIME_LIKE tables of the current source: it either refuses (one of four error
-   kinds), or says "none" - and then no time-like name is on an input axis and every output axis
+   answers, over the TIME_LIKE tables of the current source: it either refuses (one of three error
+   kinds, none of them a Python crash), or says "none" - and then no time-like name is on an input axis and every output axis
    carrying one has no input -, or returns (input axis, output axis, name) where the name is
    carried by that input axis or that output axis, no other time-like type sits on either, and
    the pair is exactly what the in2out / out2in dictionaries of axmap give. *)
@@ -25,7 +25,7 @@ Theorem find_time_like_total_and_sound :
     match find_time_like V fix0 O im with
     | Ok None => tl_none time_like_ordered ci co ornt
     | Ok (Some r) => tl_sound ci co ornt r /\ In (snd r) time_like_ordered
-    | Err e => e = ETimeMismatch \/ e = ETimeCross \/ e = ECrash \/ e = EOutside
+    | Err e => e = ETimeMismatch \/ e = ETimeCross \/ e = EOutside
     end.
 Proof. intros V fix0 O im. exact (ftl_loop_spec time_like_ordered _ _ _). Qed.
 Print Assumptions find_time_like_total_and_sound.
@@ -165,28 +165,77 @@ Proof.
 Qed.
 Print Assumptions timelike_offset_preserved_refuted.
 
-(* a 't' axis with zero offset is written with the stale toffset of the image's old header *)
-Theorem time_offset_preserved_refuted :
-  exists (im : img Z) h r,
-    nipy2nifti Z true true (id_oracle 4) im = Ok h /\ nifti2nipy Z h = Ok r /\
-    nth 3 (trn im) 0%Q = 0%Q /\ nth 3 (trn r) 0%Q = 4%Q.
-Proof.
-  eexists (mk_img ["i"; "j"; "k"; "t"] (mni4 "t") diag4 [0; 0; 0; 0]%Q [2; 2; 2; 2] 4%Q), _, _.
-  split; [vm_compute; reflexivity|]. split; [vm_compute; reflexivity|]. repeat split.
-Qed.
-Print Assumptions time_offset_preserved_refuted.
+(* (6b) formerly refuted, now theorems (fixes 93d9936 and 2ffb6d1 in /repo) *)
 
-(* an expressible image (zero TR on an input axis named 't', output named 'q', fix0 off) is neither
-   converted nor refused with NiftiError: the code raises TypeError *)
-Theorem converts_or_refuses_refuted :
-  exists (im : img Z),
-    nipy2nifti Z true false (fun _ => [Some 0; Some 1; Some 2; None]) im = Err ECrash.
+(* the toffset of the image's old header plays no role: converting the same image with any other
+   stale value gives the same NIfTI image *)
+Definition with_meta {V} (m : Q) (im : img V) : img V :=
+  {| inn := inn im; outn := outn im; lin := lin im; trn := trn im; shp := shp im; dat := dat im; meta_toffset := m |}.
+Theorem stale_header_toffset_ignored :
+  forall V strict fix0 O (im : img V) m,
+    nipy2nifti V strict fix0 O (with_meta m im) = nipy2nifti V strict fix0 O im.
 Proof.
-  exists (mk_img ["i"; "j"; "k"; "t"] (mni4 "q") [[2; 0; 0; 0]; [0; 3; 0; 0]; [0; 0; 4; 0]; [0; 0; 0; 0]]%Q
-                 [0; 0; 0; 0]%Q [2; 2; 2; 2] 0%Q).
-  vm_compute. reflexivity.
+  intros V strict fix0 O im m. unfold nipy2nifti.
+  assert (Hx : forall im', nipy2nifti_xyz V strict fix0 O (with_meta m im') = nipy2nifti_xyz V strict fix0 O im')
+    by (intros [i o L t s d m0]; reflexivity).
+  assert (Hxa : forall im', xyz_affine V strict O (with_meta m im') = xyz_affine V strict O im')
+    by (intros [i o L t s d m0]; reflexivity).
+  assert (Ha : as_xyz V strict O (with_meta m im)
+               = match as_xyz V strict O im with Ok r => Ok (with_meta m r) | Err e => Err e end).
+  { unfold as_xyz. rewrite Hxa. destruct (xyz_affine V strict O im); [reflexivity|].
+    change (outn (with_meta m im)) with (outn im).
+    destruct (xyz_order strict (outn im)) as [order|]; [|reflexivity]. cbv zeta.
+    change (lin (reorder_ref V order (with_meta m im))) with (lin (reorder_ref V order im)).
+    match goal with |- (if ?c then _ else _) = _ => destruct c; [reflexivity|] end.
+    match goal with |- context [reorder_axes V ?d (reorder_ref V order (with_meta m im))] =>
+      change (reorder_axes V d (reorder_ref V order (with_meta m im)))
+        with (with_meta m (reorder_axes V d (reorder_ref V order im))) end.
+    rewrite Hxa. now destruct (xyz_affine V strict O _). }
+  rewrite Ha. destruct (as_xyz V strict O im) as [r|e]; cbn [bind]; [apply Hx|reflexivity].
 Qed.
-Print Assumptions converts_or_refuses_refuted.
+Print Assumptions stale_header_toffset_ignored.
+
+(* and the toffset written for a 't' axis matched with output coordinate oo is exactly the
+   translation of that coordinate (0 when all non-spatial translations are 0); with no matched
+   output the conversion succeeds only when there is no non-spatial offset at all *)
+Theorem time_offset_preserved :
+  forall V (im : img V) o toff,
+    toff_rule V im o "t" = Ok toff ->
+    match o with
+    | Some oo => 3 <= oo -> (toff == nth oo (trn im) 0%Q)%Q
+    | None => forallb is0 (skipn 3 (trn im)) = true /\ toff = 0%Q
+    end.
+Proof. exact toff_rule_spec. Qed.
+Print Assumptions time_offset_preserved.
+
+(* every refusal is a NiftiError kind (or the model's "outside" marker): no input leads to a
+   Python TypeError any more *)
+Theorem converts_or_refuses :
+  forall V strict fix0 O (im : img V) e,
+    nipy2nifti V strict fix0 O im = Err e ->
+    In e [EReorder; ESpaceCoupled; ENsCoupled; EWorld; EUnknownAffine; ETooMany; ETimeMismatch; ETimeCross;
+          EToffset; EOutside].
+Proof.
+  intros V strict fix0 O im e H. unfold nipy2nifti in H.
+  destruct (as_xyz V strict O im) as [im'|e1] eqn:Ea; cbn [bind] in H.
+  - right. now apply (n2n_xyz_errors V strict fix0 O im').
+  - inversion H; subst. left. unfold as_xyz in Ea.
+    destruct (xyz_affine V strict O im); [discriminate Ea|].
+    destruct (xyz_order strict (outn im)); [|now inversion Ea].
+    match type of Ea with (if ?c then _ else _) = _ => destruct c; [now inversion Ea|] end.
+    match type of Ea with match ?c with _ => _ end = _ => destruct c; [discriminate Ea|now inversion Ea] end.
+Qed.
+Print Assumptions converts_or_refuses.
+
+(* the former crash witness (input axis 't', output 'q', zero TR, fix0 off) is now converted, TR 0 *)
+Example zero_tr_unmatched_input_t_converts :
+  exists h,
+    nipy2nifti Z true false (fun _ => [Some 0; Some 1; Some 2; None])
+      (mk_img ["i"; "j"; "k"; "t"] (mni4 "q") [[2; 0; 0; 0]; [0; 3; 0; 0]; [0; 0; 4; 0]; [0; 0; 0; 0]]%Q
+              [0; 0; 0; 0]%Q [2; 2; 2; 2] 0%Q) = Ok h
+    /\ h_pixdim h = [0%Q] /\ h_tunits h = "sec" /\ h_toffset h = 0%Q /\ h_shape h = [2; 2; 2; 2].
+Proof. eexists. repeat split; vm_compute; reflexivity. Qed.
+Print Assumptions zero_tr_unmatched_input_t_converts.
 
 (* (7) files._type_from_filename on the documented names (any other case is covered by the
    correspondence; the general statement over all stems is not proved: _partial) *)
